@@ -28,12 +28,25 @@ INFO = {
 }
 
 
+_reader_cache = {}
+
+
 def _parse_fn(src):
+    """Excel.parse in reader normal form: helpers of the class inlined (the suspicious-content test stays a call), appended
+    comprehensions / conditional expressions desugared into loops / if-else, guard clauses nested"""
+    import copy as _copy
+    from ..inline import inline_methods, class_resolver, desugar, nest_guards
+    if id(src) in _reader_cache:
+        return _reader_cache[id(src)]
     ex = src.cls('Excel')
     fi = ex.methods.get('parse')
     if fi is None:
         raise AnalysisError('C18', 'Excel.parse not found')
-    return fi
+    f2 = _copy.copy(fi)
+    node = inline_methods(fi.node, class_resolver(src, ex, fi), depth=2, exclude={'_get_suspicious_constructions', '__init__'})
+    f2.node = nest_guards(desugar(node))
+    _reader_cache[id(src)] = f2
+    return f2
 
 
 def _sheet_loop(fi):
@@ -79,7 +92,8 @@ def r1(run: Run, src):
     run.check(len(resets) == 1 and resets[0].lineno < row_loop.lineno, 'C18.R1', 'Excel.parse/reset_dimensions', 'no-reset',
               'reset_dimensions() is not called before the rows are read: a stale dimension record in the file shifts or truncates the '
               'streamed rows', fact='reset before reading', loc=loc_of(fi.module.path, sheet_loop))
-    cell_loops = [n for n in ast.walk(row_loop) if isinstance(n, ast.For) and n is not row_loop]
+    cell_loops = [n for n in ast.walk(row_loop) if isinstance(n, ast.For) and n is not row_loop and
+                  any(isinstance(c, ast.Call) and isinstance(c.func, ast.Attribute) and c.func.attr == 'append' for c in ast.walk(n))]
     if len(cell_loops) != 1:
         raise AnalysisError('C18.R1', 'the loop over the cells of a row was not found')
     cell_loop = cell_loops[0]
@@ -295,8 +309,9 @@ def r3(run: Run, src, rt):
                    loc=loc_of(fi.module.path, cand[0]))
             return
         raise AnalysisError('C18.R3', 'the statement that stores a cell value was not found')
+    from .common import flat_conditions
     for a in raw:
-        conds = path_conditions(fi.node, a, parents)
+        conds = flat_conditions(path_conditions(fi.node, a, parents))
         ok = any('ArrayFormula' in ast.unparse(t) and 'isinstance' in ast.unparse(t) and pol is False for t, pol in conds)
         run.check(ok, 'C18.R3', f'Excel.parse/`{ast.unparse(a)[:40]}`', 'array-formula-object-stored',
                   'the raw cell value is stored on a path where it may be an ArrayFormula object: its repr() (with a memory '
@@ -304,7 +319,7 @@ def r3(run: Run, src, rt):
                   loc=loc_of(fi.module.path, a))
     unwrap = [a for a in appends if '.text' in ast.unparse(a.args[0])]
     for a in unwrap:
-        conds = path_conditions(fi.node, a, parents)
+        conds = flat_conditions(path_conditions(fi.node, a, parents))
         ok = any('ArrayFormula' in ast.unparse(t) and pol is True for t, pol in conds)
         run.check(ok, 'C18.R3', f'Excel.parse/`{ast.unparse(a)[:40]}`', 'text-of-non-array',
                   '.text is read from a value that is not known to be an ArrayFormula', fact='guarded by isinstance', loc=loc_of(fi.module.path, a))
